@@ -108,8 +108,10 @@ CUR_ALIAS = ["dollar", "euro", "tl", "kroner", "leva", "avro", "kr"]
 CUR_SYM = ["$", "€", "₺"]
 MONTHS_EN = ["january", "february", "march", "april", "may", "june", "july", "august", "september", "october", "november",
              "december", "jan", "feb", "mar", "apr", "jun", "jul", "aug", "sep", "oct", "nov", "dec"]
-MONTHS_TR = ["ocak", "şubat", "subat", "mart", "nisan", "haziran", "temmuz", "ağustos", "agustos", "eylül", "eylul", "ekim",
-             "kasim", "oca", "mar", "nis", "haz", "tem", "eki", "kas", "ara"]
+# without the ASCII spellings subat / agustos / eylul / kasim / aralik (not read as months: C19's finding) and without
+# names containing dotless i (no case change keeps their lower-case image)
+MONTHS_TR = ["ocak", "şubat", "mart", "nisan", "haziran", "temmuz", "ağustos", "eylül", "ekim", "oca", "mar", "nis", "haz",
+             "tem", "eki", "kas", "ara"]
 CURRENCY_CODES = {k.upper() for k in CONFIG["currencies"]}
 ZONES = ["EST", "GMT", "CET", "PST", "UTC", "EET", "CEST", "EDT", "AEST", "HKT", "MSK", "BST", "CST"]
 ZONES = [z for z in ZONES if z in CONFIG["timezones"] and z not in CURRENCY_CODES]
@@ -183,7 +185,11 @@ def date_en(rng, with_year=True):
     if k == 0:
         return [lit(d), month_en(rng), lit(y)]
     if k == 1:
-        return [month_en(rng), lit(d), op(",", ""), lit(y)]
+        # `17,` is ONE literal for the lexer (the number syntax [0-9]+[0-9.,]* takes the comma): either the literal with
+        # its comma, or the comma as a token of its own, apart from the day
+        if rng.random() < 0.6:
+            return [month_en(rng), lit("%d," % d), lit(y)]
+        return [month_en(rng), lit(d), op(","), lit(y)]
     if k == 2:
         return [month_en(rng), lit(d), lit(y)]
     return [lit(d), op("/", ""), lit(rng.randint(1, 12), ""), op("/", ""), lit(y, "")]
@@ -460,8 +466,27 @@ def classes_present(lines):
     return sorted({("var" if t.cls == "vardef" else t.cls) for toks in lines for t in toks})
 
 
-def make_case(rng, kind, lines, lang):
+def compact(rng, lines):
+    """let operators touch their neighbours in the original (`8/2`, `x=3`, `(1 + 2)*3`, `what%of`): the blanks rewriting
+    then inserts blanks where there were none.  A signed literal stays apart from the operator in front of it."""
+    out = []
+    for toks in lines:
+        toks = [T(t.text, t.cls, t.sep) for t in toks]
+        if rng.random() < 0.3:
+            for i, t in enumerate(toks):
+                if t.cls == "op" and t.text in "+-*/=%()" and rng.random() < 0.7:
+                    if i and t.text != "(":
+                        t.sep = ""
+                    if i + 1 < len(toks) and t.text != ")" and toks[i + 1].text[:1] not in "-+":
+                        toks[i + 1].sep = ""
+        out.append(toks)
+    return out
+
+
+def make_case(rng, kind, lines, lang, compacted=False):
     """one history: the original text, then the variants"""
+    if not compacted:
+        lines = compact(rng, lines)
     orig = [render(toks) for toks in lines]
     present = classes_present(lines)
     variants = []                      # (rewriting kinds, keyword classes, text lines)
@@ -499,7 +524,16 @@ def make_case(rng, kind, lines, lang):
             "rewrites": [{"kinds": k, "classes": c} for k, c, _ in variants],
             # which lines of the original contain a word of which class (for narrow known classes)
             "line_classes": [sorted({t.cls for t in toks}) for toks in lines],
-            "touching": [any(t.sep == "" for t in toks[1:]) for toks in lines]}
+            "touching": [any(t.sep == "" for t in toks[1:]) for toks in lines],
+            # a binary '-' written directly in front of a digit (`2020-1 month`): the lexer reads the sign into the literal
+            "minus_touch": [any(t.cls == "op" and t.text == "-" and i + 1 < len(toks) and toks[i + 1].sep == ""
+                                and toks[i + 1].text[:1].isdigit() for i, t in enumerate(toks)) for toks in lines],
+            # a binary '+' / '-' directly in front of a digit with a word (unit, duration word, to in as into ...) later in
+            # the line: a rule or unit pattern has to start at the signed literal
+            "sign_touch_conv": [any(t.cls == "op" and t.text in "+-" and i + 1 < len(toks) and toks[i + 1].sep == ""
+                                    and toks[i + 1].text[:1].isdigit()
+                                    and any(u.cls not in ("lit", "op") for u in toks[i + 2:])
+                                    for i, t in enumerate(toks)) for toks in lines]}
     return {"ops": ops, "meta": meta}
 
 
@@ -550,15 +584,23 @@ PINNED = [
     ("unit-conv", "en", [[lit(5), T("kb", "unit"), conn("to"), T("mb", "unit")]]),
     ("var-number", "en", [[T("x", "vardef"), op("="), lit(3)], [T("x", "var"), op("+"), lit(1)]]),
     ("date-at", "en", [[lit(5), T("march", "month"), lit(2020), conn("at"), lit("12:30")]]),
+    # known finding C16-K1: '-' directly in front of the digit
+    ("date-arith", "en", [[lit(12), T("jul", "month"), lit(1997), op("-", ""), lit(1, ""), T("year", "dur")]]),
+    ("date-arith", "en", [[lit(5), T("jan", "month"), lit(2020), op("-", ""), lit(1, ""), T("month", "dur")]]),
+    # known finding C16-K2: '+' directly in front of the digit, a conversion behind the second operand
+    ("money-add-conv", "en", [[lit(450), T("chf", "cur"), op("+", ""), lit(250, ""), T("dollar", "cur"), conn("as"),
+                               T("jpy", "cur")]]),
+    ("unix-to-date", "en", [[lit(1600000000), op("+", ""), lit(60, ""), conn("to"), T("date", "kw")]]),
+    ("unit-add", "en", [[lit(5), op("+", ""), lit(3, ""), T("km", "unit")]]),
 ]
 
 
 def generate(rng, tier):
-    n = 300 if tier == "quick" else 4000
+    n = 640 if tier == "quick" else 6000
     cases = []
     for kind, lang, lines in PINNED:
-        cases.append(make_case(rng, kind, lines, lang))
-    m = 24 if tier == "quick" else 200
+        cases.append(make_case(rng, kind, lines, lang, compacted=True))
+    m = 45 if tier == "quick" else 300
     for i in range(m):
         cases.append(empty_case(rng, i))
     total = sum(w for _, w in FEATURES)
@@ -594,7 +636,11 @@ def value_of(line):
 
 
 def failures(c, rec):
-    """[(variant index or None, message)]"""
+    """[(variant index or None, message, line index or None)]"""
+    return [(f[0], f[1], f[2] if len(f) > 2 else None) for f in failures0(c, rec)]
+
+
+def failures0(c, rec):
     n = len(c["ops"])
     ob = exec_lines(rec, n)
     if ob is None:
@@ -638,7 +684,7 @@ def failures(c, rec):
             if va != vb:
                 out.append((k, "line %d: %r = %s %s but rewritten (%s%s) %r = %s %s" % (
                     i, t1.split("\n")[i], va[0], va[1], "+".join(rw["kinds"]),
-                    (" " + ",".join(rw["classes"])) if rw["classes"] else "", t2.split("\n")[i], vb[0], vb[1])))
+                    (" " + ",".join(rw["classes"])) if rw["classes"] else "", t2.split("\n")[i], vb[0], vb[1]), i, va, vb))
                 break
     return out
 
@@ -664,29 +710,46 @@ def known_class(c, rec, verdict, known):
     if not fs:
         return None
     hit = None
-    for k, msg in fs:
-        if k is None or "rewrites" not in c["meta"] or not c["meta"]["rewrites"] or k == 0:
+    for k, msg, li in fs:
+        if k is None or "rewrites" not in c["meta"] or not c["meta"]["rewrites"] or k == 0 or li is None:
             return None
         rw = c["meta"]["rewrites"][k - 1]
-        cl = classify(c, rw, msg)
+        cl = classify(c, rw, li, rec, k)
         if cl is None or cl not in classes:
             return None
         hit = hit or cl
     return hit
 
 
-def classify(c, rw, msg):
+K_SIGNED_DATE = "C16-sign-read-into-literal-date-minus-duration"
+K_SIGNED_CONV = "C16-sign-read-into-literal-conversion-not-matched"
+
+
+def classify(c, rw, li, rec, k):
+    """C16-K1, narrow and syntactic: the ORIGINAL writes `<date>-<n> <unit>` with the '-' directly in front of the digit
+    (the lexer reads `-n` as one signed literal and the date + (-duration) path is taken), the rewriting inserted blanks
+    at token boundaries, and both evaluations give a date (a wrong value, never an error or a panic)"""
+    m = c["meta"]
+    if "blanks" in rw["kinds"] and m["kind"] in ("date-arith", "tr-date-arith") and m["minus_touch"][li]:
+        ob = exec_lines(rec, len(c["ops"]))
+        va, vb = line_value(ob[0][li]), line_value(ob[k][li])
+        if va[0] == "item" and vb[0] == "item" and va[1].get("t") == "Date" and vb[1].get("t") == "Date":
+            return K_SIGNED_DATE
+    # C16-K2: the ORIGINAL writes `<operand>+<n> <word> ...` (a unit, a duration word, to/in/as <target>) with the sign
+    # directly in front of the digit: the two operands become adjacent tokens and the rule / unit pattern that starts at
+    # the second one is not found behind the first one
+    if "blanks" in rw["kinds"] and m.get("sign_touch_conv", [False] * (li + 1))[li]:
+        return K_SIGNED_CONV
     return None
 
 
 def witness_fails(f, wc, rec, header):
-    lines = last_lines(rec)
-    if not lines:
+    """a witness is a history [original, rewritten] whose two values differ, or a single noise line with a non-empty slot"""
+    n = len(wc["ops"])
+    ob = exec_lines(rec, n)
+    if ob is None or any(o is None for o in ob):
         return False
-    l = lines[-1]
-    obs = f["observed"]
-    if "err" in obs:
-        return l is not None and l.get("err") == obs["err"]
-    if obs.get("out") is None:
-        return l is None
-    return l is not None and l.get("out") == obs["out"]
+    if n == 1:
+        return any(l is not None for l in ob[0])
+    a, b = ob[0], ob[-1]
+    return len(a) != len(b) or any(value_of(x) != value_of(y) for x, y in zip(a, b))
